@@ -23,5 +23,8 @@ CLAIMS["C11"] = dict(
 CLAIMS["C12"] = dict(
     text="Complete proof, for each number of programs n and each of the three coverage interactions, over all coverage vectors in [0,1]^n and all real baselines and combination outcomes, that Covout.get_outcome returns baseline + sum of weight x combination outcome with weights that are non-negative, sum to at most 1 (rest on the empty combination) and have marginals equal to each program's coverage; baseline at zero coverage; baseline + c*delta for one program. The loops run over the concrete 2^n table and are unrolled; nested explores all n! orders. quick: n = 1..4, thorough: n = 1..5 (the property's whole range).",
     note="REAL arithmetic; weights are read off as coefficients of the symbolic combination outcomes (the result is linear in them); the cache invariant 'outcome of the single-program combination {i} is its delta' is assumed (update_outcomes / the 'best' rule are not yet under contract); np.argsort is assumed to return some sorting permutation")
+CLAIMS["C19"] = dict(
+    text="Exhaustive over the ast node classes of the running interpreter (every class that can occur in an expression tree) and symbolic identifiers: the per-node check of parse_function lets a node pass only if it is not an attribute access, lambda, comprehension, generator, walrus, await/yield or starred node, a call passes only if its target is a plain name in the whitelist, and exactly the non-whitelisted names are reported as dependencies; plus functional contracts for the division rewrite and sdiv. Tree depth is unbounded because the check is per node of ast.walk.",
+    note="ast.walk is assumed to yield every node of the tree; evaluation of an accepted tree by eval() with the whitelist as locals is assumed to be ordinary arithmetic; f-strings, subscripts, tuples/lists/dicts and conditional expressions are classified neutral (accepted, not claimed)")
 NOT_APPLICABLE = {}
 NOTES = "Checks exit 0 (all obligations discharged), 1 (a registered obligation refuted: VIOLATION line, replay on real objects), 2 (undecided: unknown/unsupported, never reported as a violation), 3 (checker error: vacuity, zero obligations, internal error)."
